@@ -24,6 +24,7 @@
 //!   ["flush"]                             deliver every packet now on the wire, in order
 //!   ["netstat", host] / ["counts", host] / ["rows", host]
 //!   ["udp_bind", slot, host, ia, port] / ["udp_send", slot, len, ia, port]
+//!   ["udp_connect", slot, ia, port] / ["udp_send_c", slot, len]   connected UDP: connect, then send / try_send
 //! One observation per command, same index.
 
 use serde_json::{json, Value};
@@ -456,6 +457,47 @@ fn run_case(case: &Value) -> Value {
                             Poll::Ready(Ok(n)) => json!({"r": "ok", "n": n}),
                             Poll::Ready(Err(e)) => json!({"r": err(&e)}),
                             Poll::Pending => json!({"r": "pending"}),
+                        }
+                    }
+                    _ => json!({"r": "noslot"}),
+                }
+            }
+            "udp_connect" => {
+                let slot = c[1].as_u64().unwrap();
+                let dst = sa(c, 2, v6);
+                match slots.get(&slot) {
+                    Some(Slot::Udp(s, h)) => {
+                        guard.set_current(hosts[*h]);
+                        let mut f = Box::pin(s.connect(dst));
+                        match poll_once(f.as_mut()) {
+                            Poll::Ready(Ok(())) => json!({"r": "ok"}),
+                            Poll::Ready(Err(e)) => json!({"r": err(&e)}),
+                            Poll::Pending => json!({"r": "pending"}),
+                        }
+                    }
+                    _ => json!({"r": "noslot"}),
+                }
+            }
+            "udp_send_c" => {
+                // send / try_send of a connected UdpSocket (alternating, same kernel entry point)
+                let slot = c[1].as_u64().unwrap();
+                let len = c[2].as_u64().unwrap() as usize;
+                match slots.get(&slot) {
+                    Some(Slot::Udp(s, h)) => {
+                        guard.set_current(hosts[*h]);
+                        let buf = vec![7u8; len];
+                        if len % 2 == 0 {
+                            let mut f = Box::pin(s.send(&buf));
+                            match poll_once(f.as_mut()) {
+                                Poll::Ready(Ok(n)) => json!({"r": "ok", "n": n}),
+                                Poll::Ready(Err(e)) => json!({"r": err(&e)}),
+                                Poll::Pending => json!({"r": "pending"}),
+                            }
+                        } else {
+                            match s.try_send(&buf) {
+                                Ok(n) => json!({"r": "ok", "n": n}),
+                                Err(e) => json!({"r": err(&e)}),
+                            }
                         }
                     }
                     _ => json!({"r": "noslot"}),
